@@ -90,7 +90,7 @@ Section StepS.
     ginv [cfg] (gof g') -> lg_msgs (cg_l g') = lg_msgs (cg_l g) -> cg_ans g' = cg_ans g -> cg_lead g' = cg_lead g ->
     g_leaders (gof g') = g_leaders (gof g) ->
     g_grants (gof g') = (if vt then [(i, v_term s + 1, i)] else []) ++ g_grants (gof g) ->
-    exists V', cinv cfg Ps g' C LL A V'.
+    exists Vn, cinv cfg Ps g' C LL A (Vn ++ V).
   Proof.
     intros HI Hf Hr Hnl Hk Hvk Hdt' Hvt' Hrole' Hreq Hlive Hnodes Hg' Hmsgs Hans Hleads Hld Hgr.
     destruct (find_node_in _ _ _ Hf) as [Hin Hid].
@@ -106,7 +106,7 @@ Section StepS.
       rewrite Eg. apply (plain_linv [cfg] HQ (cg_l g) C (gof g') i n s s' (Some se) (gn_next n + 1) Hlinv Hg' Hf Hr Hnodes Hld Hk); [lia|rewrite Hrole'; discriminate|].
       intros se0 E. inversion E; subst se0. right. rewrite Hreq. destruct (req_of_fields (gn_P n) s') as [-> _]. lia. }
     destruct Hcn as (N1 & N2 & N3). pose proof (cnode_up_vkeep cfg Ps s s' N3 Hvk) as N3'. pose proof N3' as (_ & _ & Htop' & _).
-    exists ((if vt then self_vote LL i T (topk s) else []) ++ V).
+    exists (if vt then self_vote LL i T (topk s) else []).
     apply (cinv_quiet cfg Ps HVn g g' C LL A V (if vt then self_vote LL i T (topk s) else []) (if vt then [(i, T, i)] else []) i n n' HI Hf Hid Hnodes Hl').
     - rewrite Hr. split; [apply Hvk|]. split; [simpl; lia|]. left. exists s. auto.
     - split; [exact N1|]. split; [exact N2|exact N3'].
@@ -140,7 +140,7 @@ Section StepS.
   Qed.
 
   Theorem cinv_timeout g C LL A V i g' : cinv cfg Ps g C LL A V ->
-    cstep false [cfg] g (CBase (LElect (GTimeout i))) = Some g' -> exists C' LL' A' V', cinv cfg Ps g' C' LL' A' V'.
+    cstep false [cfg] g (CBase (LElect (GTimeout i))) = Some g' -> exists Cn LLn An Vn, cinv cfg Ps g' (Cn ++ C) (LLn ++ LL) (An ++ A) (Vn ++ V).
   Proof.
     intros HI Hstep. apply cstep_base_inv in Hstep. destruct Hstep as (_ & l' & Hl & ->).
     pose proof (cv_l cfg Ps g C LL A V HI) as Hlinv. pose proof (cv_ci cfg Ps g C LL A V HI) as Hci. pose proof (ci_ok C LL Hci) as HC.
@@ -187,9 +187,9 @@ Section StepS.
         assert (Hno : ll_has LL T = false).
         { destruct (ll_has LL T) eqn:E; [|reflexivity]. exfalso. destruct (ll_has_true _ _ E) as (c & tl & Hx).
           apply (HnoT c). apply (cv_ll cfg Ps g C LL A V HI). eauto. }
-        match goal with |- exists C' LL' A' V', cinv _ _ ?G _ _ _ _ => set (g' := G) end.
+        match goal with |- exists Cn LLn An Vn, cinv _ _ ?G _ _ _ _ => set (g' := G) end.
         destruct (cinv_become cfg Ps HVn g g' C LL A V [(i, T, i, topk s, topk s)] [(i, T, i)] i n s sL (gn_next n + 1) HI Hf Hr KL KvL) as (C' & LL' & A' & Hc');
-          try reflexivity; [| | | | | | | | | | |exists C', LL', A', ([(i, T, i, topk s, topk s)] ++ V); exact Hc'].
+          try reflexivity; [| | | | | | | | | | |exists C', LL', A', [(i, T, i, topk s, topk s)]; exact Hc'].
         * change (d_term sL) with (v_term s0 + 1). lia.
         * change (v_term sL) with (v_term s0 + 1). lia.
         * intros T' H1 _. change (v_term sL) with (v_term s0 + 1). rewrite Hdt in H1. lia.
@@ -218,11 +218,11 @@ Section StepS.
         subst x. cbn [c_granted] in Hg. change (1 <=? 1) with true in Hg. cbn iota in Hg. inversion Hg; subst g1. clear Hg.
         destruct Kvoted as (Kl & Kvk & Kdt & Kvt).
         match goal with |- context [mkGN _ _ (Some ?X) _] => set (se0 := X) end.
-        match goal with |- exists C' LL' A' V', cinv _ _ ?G _ _ _ _ => set (g' := G) end.
+        match goal with |- exists Cn LLn An Vn, cinv _ _ ?G _ _ _ _ => set (g' := G) end.
         assert (X1 : v_role (voted (gn_P n) s0) = Candidate) by reflexivity.
         assert (X2 : se_req se0 = req_of (gn_P n) (voted (gn_P n) s0)) by reflexivity.
         destruct (cinv_enter_cand g g' C LL A V i n s (voted (gn_P n) s0) se0 true HI Hf Hr Hnl Kl Kvk Kdt Kvt X1 X2) as [V' HV'];
-          [ | reflexivity | exact Hg1 | reflexivity | reflexivity | | reflexivity | | exists C, LL, A, V'; exact HV'].
+          [ | reflexivity | exact Hg1 | reflexivity | reflexivity | | reflexivity | | exists [], [], [], V'; exact HV'].
         * rewrite live_voted. change (p_self (gn_P n)) with (gn_id n). rewrite Hid, Kt0. reflexivity.
         * cbn [g' cg_lead]. eapply (refresh_quiet (cnodes g) i n _ (cg_lead g) Hnd Hf); [exact Hid|]. intros s' E. inversion E. discriminate.
         * cbn [g' cg_l lg_g g_grants gof app]. change (v_term (voted (gn_P n) s0)) with (v_term s0 + 1). rewrite Kt0. reflexivity.
@@ -230,11 +230,11 @@ Section StepS.
       subst x. cbn [c_granted] in Hg. change (1 <=? 0) with false in Hg. cbn iota in Hg. inversion Hg; subst g1. clear Hg.
       destruct Kent as (Kl & Kvk & Kdt & Kvt).
       match goal with |- context [mkGN _ _ (Some ?X) _] => set (se0 := X) end.
-      match goal with |- exists C' LL' A' V', cinv _ _ ?G _ _ _ _ => set (g' := G) end.
+      match goal with |- exists Cn LLn An Vn, cinv _ _ ?G _ _ _ _ => set (g' := G) end.
       assert (X1 : v_role (entered (gn_P n) s0) = Candidate) by reflexivity.
       assert (X2 : se_req se0 = req_of (gn_P n) (entered (gn_P n) s0)) by reflexivity.
       destruct (cinv_enter_cand g g' C LL A V i n s (entered (gn_P n) s0) se0 false HI Hf Hr Hnl Kl Kvk Kdt Kvt X1 X2) as [V' HV'];
-        [ | reflexivity | exact Hg1 | reflexivity | reflexivity | | reflexivity | reflexivity | exists C, LL, A, V'; exact HV'].
+        [ | reflexivity | exact Hg1 | reflexivity | reflexivity | | reflexivity | reflexivity | exists [], [], [], V'; exact HV'].
       * unfold live, live_d, dproj, entered. cbn [d_term d_vterm d_vcand set_vol_term set_durable_term set_state set_role set_leader].
         destruct (N.eqb_spec (d_vterm s0) (v_term s0 + 1)) as [E|]; [|reflexivity].
         exfalso. unfold dproj in Kd0. inversion Kd0 as [[E1 E2 E3]]. unfold wfd in Hwd. lia.
